@@ -209,8 +209,8 @@ func newMainWorld(p *Plan) (*mainWorld, error) {
 		return nil, err
 	}
 	if p.Cfg.Store == "sqlite" {
-		m.dir = filepath.Join(scratchRoot, fmt.Sprintf("verifsim-main-%d-%d", os.Getpid(), runCounter.Add(1)))
-		if err := os.MkdirAll(m.dir, 0o700); err != nil {
+		var err error
+		if m.dir, err = scratchDir("main"); err != nil {
 			return nil, err
 		}
 		m.dbPath = filepath.Join(m.dir, "w.db")
@@ -297,6 +297,7 @@ func (m *mainWorld) start() error {
 // stop cancels Main's context and waits (in simulated time) for it to return.
 func (m *mainWorld) stop() (error, bool) {
 	inst := m.inst
+	began := time.Now()
 	inst.cancel()
 	var err error
 	returned := false
@@ -309,6 +310,10 @@ func (m *mainWorld) stop() (error, bool) {
 			time.Sleep(time.Second)
 		}
 	}
+	// How many of those seconds a shutdown takes depends on jitter that goroutines draw from the process-wide PRNG in an
+	// order the simulation does not decide (net/http's Shutdown polls with jitter while feeders draw their backoff): pad the
+	// stop to the next multiple of ten simulated seconds, so that a second more or less changes nothing downstream.
+	time.Sleep(10*time.Second - time.Since(began)%(10*time.Second))
 	inst.tr.CloseIdleConnections()
 	inst.ln.Close()
 	if inst.db != nil {
@@ -631,7 +636,9 @@ func c14ExecInBubble(t *testing.T, p *Plan) (r *c14Result) {
 		forked := map[int]bool{}
 		faultSeed := uint64(0)
 		m.sn.FaultFn = func(class string, occ int) string {
-			if faultSeed == 0 {
+			if faultSeed == 0 || strings.Contains(class, " rekor.example/") {
+				// (the shards of one Rekor instance send byte-identical requests in the same instant; which of them is "the n-th"
+				// is not the simulation's decision, so faults keyed by occurrence would not replay: none on that host)
 				return ""
 			}
 			h := splitmix(strHash(class) ^ uint64(occ)*0x9e37 ^ faultSeed)
